@@ -98,7 +98,8 @@ TABLE = {
             ('OpyVerif.Generated.Constants', 'Opy.Gen', r'tournamentSize_pos')],
     'C19': [('OpyVerif.Proofs.C19', 'Opy', None),
             ('OpyVerif.Proofs.C04', 'Opy', r'load_after_save|lookup_loadInto_saved'),
-            ('OpyVerif.Proofs.HistCode', 'Opy', r'code_get'), ('OpyVerif.Generated.HistProg', 'Opy.Gen', r'getProg_eq')],
+            ('OpyVerif.Proofs.HistCode', 'Opy', r'code_get'), ('OpyVerif.Generated.HistProg', 'Opy.Gen', r'getProg_eq'),
+            ('OpyVerif.Proofs.PersistProg', 'Opy', None), ('OpyVerif.Proofs.PersistCode', 'Opy', None), ('OpyVerif.Generated.Persist', 'Opy.Gen', None)],
     'C20': [('OpyVerif.Proofs.C20', 'Opy', None),
             ('OpyVerif.Proofs.SweepCode', 'Opy', None), ('OpyVerif.Proofs.SweepProg', 'Opy', r'_truthful|_is_machine_rule|eval_once'),
             ('OpyVerif.Generated.Sweeps', 'Opy.Gen', None),
